@@ -1,6 +1,6 @@
 #!/bin/bash
 # tools/runall.sh [tier] — run every registered check on the current /repo, print one line each
-cd /verif
+cd "$(dirname "$0")/.."
 tier=${1:-quick}
 ids=$(python3 -c "import json; print(' '.join(c['property_id'] for c in json.load(open('MANIFEST.json'))['checks']))")
 for id in $ids; do
